@@ -934,9 +934,10 @@ func (c *Client) CallProgressive(ctx context.Context, procedure string, sendProg
 				// In subsequent progressive calls we only need and allow
 				// `OptProgress` option from the business side. All other
 				// options should be removed from the CALL message.
-				options[wamp.OptProgress] = cliOptions[wamp.OptProgress].(bool)
-
-				callInProgress, _ = options[wamp.OptProgress].(bool)
+				// An unset wamp.OptProgress marks the final chunk, the same as
+				// false.
+				callInProgress, _ = cliOptions[wamp.OptProgress].(bool)
+				options[wamp.OptProgress] = callInProgress
 
 				message := &wamp.Call{
 					Request:   id,
